@@ -378,11 +378,15 @@ func (p *Persister) flushNow(ctx context.Context, batch map[string]persistData, 
 
 	defer tx.Discard()
 	for id, data := range batch {
-		err := data.storeFunc(ctx)
+		// assign to the outer err (do not shadow it): a failed write must
+		// fail the whole flush, so that nothing is committed and every
+		// callback learns that its state is not durable
+		err = data.storeFunc(ctx)
 		if err != nil {
 			p.logger.Err(ctx, err).
 				Str(log.ConnectorIDField, id).
 				Msg("error while saving connector")
+			break
 		}
 	}
 	if err == nil {
